@@ -79,7 +79,7 @@ def block_at(offset, p, s):
 
 
 def _is_label_space(s):
-    return any(x[0] in ('S', 'ORD', 'SUB') for x in flat(s))
+    return any(x[0] in ('S', 'ORD', 'SUB', 'SORT') for x in flat(s))
 
 
 def show(s):
@@ -90,6 +90,7 @@ def show(s):
         fl = flat(s)
         if fl != [s]: return ' ⊕ '.join(show(x) for x in fl) if fl else '∅'
         return f"{show(s[1])}[{s[2]}]"
+    if s[0] == 'SORT': return f"sorted({show(s[1])})"
     if s[0] == 'ONE': return '1'
     if s[0] == 'T': return s[1]
     if s[0] == 'U': return f"?{s[2] and ':' + s[2]}"
@@ -186,8 +187,30 @@ class _Ctx:
             for t in (st.targets if isinstance(st, ast.Assign) else [st.target]): c.assign(t, val, env, st)
             return None
         if isinstance(st, ast.AugAssign):
-            c.ev(st.value, env); return None
+            c.ev(st.value, env)
+            if isinstance(st.target, ast.Subscript):
+                arr = c.ev(st.target.value, env)
+                idx = c.ev(st.target.slice, env) if not isinstance(st.target.slice, ast.Slice) else TOP
+                if arr.kind == 'array' and idx.kind in ('idxlist', 'list', 'tuple', 'array'):
+                    # numpy semantics: X[[i, j, i]] += v applies ONE update per distinct index -- repeated indices do not accumulate
+                    c.it.ob(c, 'scatter-accumulate', False, "augmented assignment through an index LIST: numpy buffers the operation, contributions that address the same position "
+                            "more than once are not summed (use np.add.at or a matrix product)", st)
+                elif arr.kind == 'array' and idx.kind == 'index':
+                    c.check_index(idx, arr.axes[0], st.target, 'store-index')
+            return None
         if isinstance(st, ast.For):
+            # accumulate idiom  out = []; for t in it: [if c:] out.append(elt)   ==  out = [elt for t in it if c]
+            body, ifs = st.body, []
+            while len(body) == 1 and isinstance(body[0], ast.If) and not body[0].orelse:
+                ifs.append(body[0].test); body = body[0].body
+            if (len(body) == 1 and isinstance(body[0], ast.Expr) and isinstance(body[0].value, ast.Call) and isinstance(body[0].value.func, ast.Attribute)
+                    and body[0].value.func.attr == 'append' and isinstance(body[0].value.func.value, ast.Name) and len(body[0].value.args) == 1):
+                nm = body[0].value.func.value.id
+                cur = env.get(nm)
+                if cur is not None and cur.kind == 'tuple' and not cur.items:
+                    fake = ast.ListComp(elt=body[0].value.args[0], generators=[ast.comprehension(target=st.target, iter=st.iter, ifs=ifs, is_async=0)])
+                    env[nm] = c.comp(fake, env)
+                    return None
             c.bind_loop(st.target, c.iter_of(c.ev(st.iter, env)), env)
             return c.block(st.body, env)
         if isinstance(st, ast.While):
@@ -630,6 +653,12 @@ class _Ctx:
             it = c.iter_of(a)
             return V('list', space=it.space or U('list'), elem=it.elem)
         if name == 'sorted':
+            if a.kind in ('dictparam',):
+                sp = ('SORT', ('ORD', a.name))
+                return V('list', space=sp, elem=V('label', space=sp))
+            if a.kind == 'list' and a.space[0] == 'ORD':
+                sp = ('SORT', a.space)
+                return V('list', space=sp, elem=V('label', space=sp))
             if a.kind == 'list':
                 sp = _sorted_space(a.space)
                 return V('list', space=sp, elem=V('label', space=sp))
